@@ -8,3 +8,6 @@ open SamVerif.Incremental
 #print axioms sources_follow_files
 #print axioms incremental_refines_fresh
 #print axioms no_diagnostics_for_non_files
+#print axioms checked_tracks_sources
+#print axioms lsp_glue_file_view
+#print axioms lsp_events_refine_fresh
